@@ -1175,6 +1175,10 @@ namespace ipr::impl {
             throw std::domain_error
                ("type_factoy::get_qualified: no qualifier");
 
+         // Maintain the normal form: the main variant is never itself qualified.
+         if (auto inner = util::view<ipr::Qualified>(t))
+            return get_qualified(q | inner->qualifiers(), inner->main_variant());
+
          using rep = impl::Qualified::Rep;
          return *qualifieds.insert(rep{ q, t }, binary_compare());
       }
